@@ -64,15 +64,19 @@ func runConc(seed int64, nclients, nops int, size uint64, out string, shape stri
 	r.Init()
 	rng := rand.New(rand.NewSource(seed))
 	// --- sequential set-up: two directories, a few files and sub-directories with colliding names
+	// files first, directories afterwards, then the files are moved in: the children have SMALLER inode
+	// numbers than their directories, so lookups and removals take the abort-and-relock path
 	setup := []Op{
-		{Id: 1, Proc: "mkdir", H: "root", Name: "d1"},
-		{Id: 2, Proc: "mkdir", H: "root", Name: "d2"},
-		{Id: 3, Proc: "create", H: "@1", Name: "a"},
-		{Id: 4, Proc: "create", H: "@2", Name: "a"},
-		{Id: 5, Proc: "create", H: "@1", Name: "b"},
-		{Id: 6, Proc: "write", H: "@3", Off: 0, Cnt: 6000, Stable: 2, Data: DataSpec{Pat: true, Len: 6000, Seed: 1}},
-		{Id: 7, Proc: "mkdir", H: "root", Name: "s"},
-		{Id: 8, Proc: "write", H: "@5", Off: 0, Cnt: 100, Stable: 2, Data: DataSpec{Pat: true, Len: 100, Seed: 2}},
+		{Id: 1, Proc: "create", H: "root", Name: "fa"},
+		{Id: 2, Proc: "create", H: "root", Name: "fb"},
+		{Id: 3, Proc: "create", H: "root", Name: "fc"},
+		{Id: 4, Proc: "mkdir", H: "root", Name: "d1"},
+		{Id: 5, Proc: "mkdir", H: "root", Name: "d2"},
+		{Id: 6, Proc: "rename", H: "root", Name: "fa", H2: "@4", Name2: "a"},
+		{Id: 7, Proc: "rename", H: "root", Name: "fb", H2: "@5", Name2: "a"},
+		{Id: 8, Proc: "rename", H: "root", Name: "fc", H2: "@4", Name2: "b"},
+		{Id: 9, Proc: "write", H: "@1", Off: 0, Cnt: 6000, Stable: 2, Data: DataSpec{Pat: true, Len: 6000, Seed: 1}},
+		{Id: 10, Proc: "write", H: "@3", Off: 0, Cnt: 100, Stable: 2, Data: DataSpec{Pat: true, Len: 100, Seed: 2}},
 	}
 	for _, o := range setup {
 		r.Step(o)
@@ -102,6 +106,9 @@ func runConc(seed int64, nclients, nops int, size uint64, out string, shape stri
 			ct.txns[op] = append(ct.txns[op], fmt.Sprintf("%s0:%d", tag, arg))
 		}
 		ct.mu.Unlock()
+		if kind == 5 {
+			time.Sleep(time.Duration(100+(atomic.AddInt64(&noise, 12345)>>9)%400) * time.Microsecond)
+		}
 		if kind == 0 || kind == 3 || kind == 4 || kind == 2 {
 			n := atomic.AddInt64(&noise, 0x9E3779B97F4A7C15>>1)
 			switch (n >> 7) % 6 {
@@ -113,13 +120,36 @@ func runConc(seed int64, nclients, nops int, size uint64, out string, shape stri
 		}
 	}
 	names := []string{"a", "b", "c"}
-	dirs := []string{"@1", "@2"}
-	files := []string{"@3", "@4", "@5"}
+	dirs := []string{"@4", "@5"}
+	files := []string{"@1", "@2", "@3"}
 	genOp := func(rg *rand.Rand, id int) Op {
 		d := dirs[rg.Intn(2)]
 		n := names[rg.Intn(len(names))]
 		fl := files[rg.Intn(len(files))]
 		switch shape {
+		case "relock": // removal / lookup of a child with a smaller number than its directory vs. re-binding of the name
+			i := id % 1000
+			switch id / 1000 % 3 {
+			case 0:
+				return []Op{{Id: id, Proc: "lookup", H: "@4", Name: "a"}, {Id: id, Proc: "remove", H: "@4", Name: "a"},
+					{Id: id, Proc: "lookup", H: "@4", Name: "c"}, {Id: id, Proc: "getattr", H: "@1"}, {Id: id, Proc: "lookup", H: "@4", Name: "a"}, {Id: id, Proc: "readdir", H: "@4", Count: 1 << 20}}[i%6]
+			case 1:
+				return []Op{{Id: id, Proc: "rename", H: "@4", Name: "a", H2: "@4", Name2: "c"}, {Id: id, Proc: "create", H: "@4", Name: "a"},
+					{Id: id, Proc: "getattr", H: "@1"}, {Id: id, Proc: "lookup", H: "@4", Name: "c"}, {Id: id, Proc: "lookup", H: "@4", Name: "a"}, {Id: id, Proc: "readdir", H: "@4", Count: 1 << 20}}[i%6]
+			}
+			return []Op{{Id: id, Proc: "remove", H: "@4", Name: "b"}, {Id: id, Proc: "rename", H: "@5", Name: "a", H2: "@5", Name2: "z"}, {Id: id, Proc: "create", H: "@5", Name: "a"},
+				{Id: id, Proc: "lookup", H: "@5", Name: "a"}, {Id: id, Proc: "remove", H: "@5", Name: "a"}, {Id: id, Proc: "getattr", H: "@2"}}[i%6]
+		case "lsrace": // a listing of a directory against mutations of its children
+			if id/1000%2 == 0 {
+				return Op{Id: id, Proc: "readdirplus", H: "@4", Cookie: 0, Dircount: 1 << 20, Maxcount: 1 << 20}
+			}
+			switch rg.Intn(3) {
+			case 0:
+				return Op{Id: id, Proc: "setattr", H: "@1", HasSize: true, Size: uint64(rg.Intn(9000))}
+			case 1:
+				return Op{Id: id, Proc: "write", H: "@3", Off: 0, Cnt: 50, Stable: 2, Data: DataSpec{Pat: true, Len: 50, Seed: uint64(id)}}
+			}
+			return Op{Id: id, Proc: "setattr", H: "@3", At: TimeSpec{How: 2, Sec: uint32(id), Nsec: 1}}
 		case "data":
 			switch rg.Intn(6) {
 			case 0, 1:
@@ -162,7 +192,7 @@ func runConc(seed int64, nclients, nops int, size uint64, out string, shape stri
 		case 7:
 			return Op{Id: id, Proc: "rmdir", H: d, Name: n}
 		case 8:
-			if rg.Intn(2) == 0 {
+			if rg.Intn(8) == 0 { // rare: it can really deadlock (open finding F20) and each hang costs the watchdog time
 				return Op{Id: id, Proc: "readdirplus", H: d, Cookie: 0, Dircount: 1 << 20, Maxcount: 1 << 20}
 			}
 			return Op{Id: id, Proc: "readdir", H: d, Cookie: 0, Count: 1 << 20}
